@@ -111,6 +111,24 @@ def decomposeNTT (TQ TP : Scaling.Tabs) (Q P : List Nat) (levelQ levelP nbPi siz
       let rp := (List.range (levelP + 1)).map fun j => NTT.nttStd (Scaling.tab TP j) (row b j)
       some (rq, rp)
 
+/-- `DecomposeNTT` for either ring type (`Scaling.xfStd`: the function above, by `rfl`) -/
+def decomposeNTTX (F : Scaling.Xf) (TQ TP : Scaling.Tabs) (Q P : List Nat) (levelQ levelP nbPi size : Nat)
+    (isNTT : Bool) (c2 : Rows) : Option (List (Rows × Rows)) :=
+  let inv := if isNTT then Scaling.inttRowsX F TQ levelQ c2 else c2
+  let ntt := if isNTT then c2 else Scaling.nttRowsX F TQ levelQ c2
+  (List.range size).mapM fun d =>
+    match decomposeAndSplit Q P true levelQ levelP nbPi d inv ((List.range (levelQ + 1)).map fun _ => []) with
+    | none => none
+    | some (a, b) =>
+      let st := d * nbPi
+      let ed := st + nbPi
+      let rq := (List.range (levelQ + 1)).map fun x =>
+        if st ≤ x ∧ x < ed then row ntt x else F.ntt (Scaling.tab TQ x) (row a x)
+      let rp := (List.range (levelP + 1)).map fun j => F.ntt (Scaling.tab TP j) (row b j)
+      some (rq, rp)
+
+theorem decomposeNTTX_std : decomposeNTTX Scaling.xfStd = decomposeNTT := rfl
+
 /-- `MaskVec(p1, w, mask, p2)` -/
 def maskVec (w mask : Nat) (p1 : List Nat) : List Nat := p1.map fun x => MaskVec_lane x w mask 0
 
